@@ -38,7 +38,18 @@ func startRealEnv(dir string, env []string, args ...string) (*ptyrun.Proc, strin
 		return nil, "", err
 	}
 	lre := regexp.MustCompile(`Listening on (\S+)`)
-	if p.WaitFor(lre, 0, 30*time.Second) < 0 {
+	started := false
+	for deadline := time.Now().Add(30 * time.Second); time.Now().Before(deadline); {
+		if p.WaitFor(lre, 0, 200*time.Millisecond) >= 0 {
+			started = true
+			break
+		}
+		if p.Done() { /* It has exited: it will not start listening. */
+			started = p.WaitFor(lre, 0, 100*time.Millisecond) >= 0
+			break
+		}
+	}
+	if !started {
 		out := p.Output()
 		p.Close()
 		return nil, "", fmt.Errorf("the binary did not start: %q", trunc300(out))
